@@ -1,0 +1,58 @@
+//go:build verif
+
+package shutterservice
+
+import (
+	"context"
+
+	"github.com/ethereum/go-ethereum/core/types"
+	"github.com/jackc/pgx/v4/pgxpool"
+
+	"github.com/shutter-network/rolling-shutter/rolling-shutter/keyper/epochkghandler"
+	"github.com/shutter-network/rolling-shutter/rolling-shutter/medley/broker"
+	syncevent "github.com/shutter-network/rolling-shutter/rolling-shutter/medley/chainsync/event"
+	"github.com/shutter-network/rolling-shutter/rolling-shutter/medley/encodeable/number"
+	"github.com/shutter-network/rolling-shutter/rolling-shutter/p2p"
+)
+
+// VerifNewKeyper builds a keyper from the parts the block handler uses, without starting services.
+func VerifNewKeyper(
+	config *Config,
+	dbpool *pgxpool.Pool,
+	triggers chan *broker.Event[*epochkghandler.DecryptionTrigger],
+) *Keyper {
+	return &Keyper{
+		config:                   config,
+		dbpool:                   dbpool,
+		decryptionTriggerChannel: triggers,
+	}
+}
+
+// VerifSetSyncers installs the syncers processNewBlock runs before deciding on triggers.
+func (kpr *Keyper) VerifSetSyncers(registrySyncer *RegistrySyncer, multiEventSyncer *MultiEventSyncer) {
+	kpr.registrySyncer = registrySyncer
+	kpr.multiEventSyncer = multiEventSyncer
+}
+
+func verifLatestBlock(header *types.Header) *syncevent.LatestBlock {
+	return &syncevent.LatestBlock{
+		Number:    number.BigToBlockNumber(header.Number),
+		BlockHash: header.Hash(),
+		Header:    header,
+	}
+}
+
+// VerifProcessNewBlock runs the handler of a new block (syncers, then the trigger decision).
+func (kpr *Keyper) VerifProcessNewBlock(ctx context.Context, header *types.Header) error {
+	return kpr.processNewBlock(ctx, verifLatestBlock(header))
+}
+
+// VerifMaybeTriggerDecryption runs the trigger decision alone.
+func (kpr *Keyper) VerifMaybeTriggerDecryption(ctx context.Context, header *types.Header) error {
+	return kpr.maybeTriggerDecryption(ctx, verifLatestBlock(header))
+}
+
+// VerifNewHandlers builds the handlers of received key shares and keys messages.
+func VerifNewHandlers(dbpool *pgxpool.Pool) (shares p2p.MessageHandler, keys p2p.MessageHandler) {
+	return &DecryptionKeySharesHandler{dbpool}, &DecryptionKeysHandler{dbpool}
+}
